@@ -195,12 +195,46 @@ def scrape_once(scraper, url, ctype, data, extra_fields=()):
     response.body.seek(0)        # Session.download rewinds the body before anything reads it
     response.request = request
     try:
-        scraper.scrape_info(request, response)
+        info = scraper.scrape_info(request, response)
+        store_links(url, info)
         return None
     except Exception as e:   # noqa
         return e
     finally:
         response.body.close()
+
+
+_STORE = {'table': None, 'n': 0}
+
+
+def store_links(parent_url, info):
+    """What the processing rule does next with a scrape result: every link that parses is stored in the URL table with
+    the link type the scraper gave it (ItemSession.add_child_url -> add_many).  A value the table cannot hold raises
+    there, outside any per-URL handler."""
+    from wpull.database.sqltable import SQLiteURLTable
+    from wpull.database.base import AddURLInfo
+    from wpull.pipeline.item import URLProperties, URLData
+    from wpull.url import parse_url_or_log
+    if _STORE['table'] is None or _STORE['n'] > 400:
+        if _STORE['table'] is not None:
+            _STORE['table'].close()
+        _STORE['table'], _STORE['n'] = SQLiteURLTable(':memory:'), 0
+    _STORE['n'] += 1
+    batch = []
+    for result in (info or {}).values():
+        if not result:
+            continue
+        for lc in result.link_contexts:
+            if not parse_url_or_log(lc.link):
+                continue
+            props = URLProperties()
+            props.level, props.parent_url, props.root_url, props.link_type = 1, parent_url, parent_url, lc.link_type
+            props.inline_level = 1 if lc.inline else None
+            batch.append(AddURLInfo(lc.link, props, URLData()))
+    if batch:
+        _STORE['table'].add_many(batch)
+        for a in batch:
+            _STORE['table'].get_one(a.url)      # what check_out does later: the stored record is read back
 
 
 def stream_scrape(ctx, n):
@@ -288,8 +322,15 @@ def http_once(raw, close, seed, robots=False):
             else:
                 async def run_it():
                     with client.session() as session:
-                        await compat._ensure(session.start(Request('http://a.test/x')))
+                        response = await compat._ensure(session.start(Request('http://a.test/x')))
                         await compat._ensure(session.download(file=io.BytesIO(), duration_timeout=30))
+                        # what the option features do with the parsed response afterwards, outside the per-URL
+                        # handler: --save-headers / --server-response serialise it, the WARC/CDX and database
+                        # paths take its dictionary form and single fields
+                        response.to_bytes()
+                        response.to_dict()
+                        str(response)
+                        list(response.fields.get_all())
             task = asyncio.ensure_future(run_it())
             done = await fakenet.settle(task, [], extra=300)
             if not done:
